@@ -166,6 +166,11 @@ def run(tier, replay=None):
                 st["known-F8"] += 1
                 chk.known(f8, "F8: yr_rules_define_string_variable then yr_rules_save aborts at %s (case %s)" % (d["CRASH"], cid)) if st["known-F8"] == 1 else None
                 continue
+            if "S" not in d and d["CRASH"].startswith("ubsan(") and d["CRASH"].rsplit("@", 1)[-1] not in ("arena.c", "rules.c", "stream.c"):
+                # the ORIGINAL rules, before any save, hit an unrelated undefined-behaviour trap while scanning (e.g. exec.c
+                # arithmetic): outside this property; the case is dropped
+                st["dropped-unrelated-ub-in-original-scan"] += 1
+                continue
             viol("crash-during-save-load-scan", cid, d)
             continue
         bad = [k for k in RC_KEYS if k in d and d[k] != "OK"] + [k for k in EQ_KEYS if d.get(k) != "="]
